@@ -26,7 +26,19 @@ pub async fn get_request_addr(stream: &mut TcpStream) -> anyhow::Result<Address>
             Proxy::Http(address) => check_address(address),
             Proxy::Https(address) => {
                 let address = check_address(address)?;
-                let _ = stream.read(&mut [0; 1024]).await?;
+                // consume exactly the CONNECT request, up to and including its blank line, however it is segmented
+                let mut buf = [0; 8192];
+                loop {
+                    let len = stream.peek(&mut buf).await?;
+                    if let Some(end) = buf[..len].windows(4).position(|w| w == b"\r\n\r\n") {
+                        stream.read_exact(&mut buf[..end + 4]).await?;
+                        break;
+                    }
+                    if len == 0 || len == buf.len() {
+                        bail!("invalid http CONNECT request");
+                    }
+                    tokio::time::sleep(Duration::from_millis(5)).await;
+                }
                 stream.write_all(b"HTTP/1.1 200 Connection established\r\n\r\n").await?;
                 Ok(address)
             }
